@@ -100,7 +100,9 @@ class FakeSocket:
     def getpeername(self) -> Any:
         if self.closed:
             raise OSError(errno.EBADF, "Bad file descriptor")
-        if self.connect_state != "done" or self.endpoint is None:
+        if self.connect_state != "done" or self.endpoint is None or self.reset_received:
+            # (after the peer's RST has arrived the kernel has torn the connection down: getpeername() answers ENOTCONN like shutdown() does -
+            #  calibrated against a real socket in setup)
             raise OSError(errno.ENOTCONN, "Transport endpoint is not connected")
         return self.address
 
@@ -284,11 +286,15 @@ class SimNet:
                 return
             sock.connect_state = "done"
             rec["t_end"] = self.sim.clock
-            if kind == "ok":
-                rec["outcome"] = "ok"
+            if kind in ("ok", "ok-then-rst"):
+                rec["outcome"] = kind
                 device = pol[2]
                 sock.endpoint = device.accept(sock)
                 self.sim.log("tcp_ok", sock.fd)
+                if kind == "ok-then-rst":
+                    # the device accepts and aborts at once (out of connection slots, rebooting): the RST is in the kernel by the time the loop tells the
+                    # connecting task that its connect succeeded
+                    sock.arrive(ConnectionResetError(errno.ECONNRESET, "Connection reset by peer"))
             else:
                 rec["outcome"] = kind
                 sock.so_error = {"refuse": errno.ECONNREFUSED, "unreach": errno.EHOSTUNREACH, "timeout": errno.ETIMEDOUT}.get(kind, errno.ECONNREFUSED)
